@@ -14,7 +14,7 @@ import (
 
 func init() {
 	register(&Def{ID: "C08", Engine: "E1", Run: runC08,
-		Rule: "cross product: {Sum,Max,Min} x {function, method} x ordered numeric element types (+complex for Sum) x shapes of rank 1-4 x EVERY non-empty subset of axes (ascending, plus one non-ascending order) x operand layout L5 x value sets {injective, ties and negatives, overflow}; " +
+		Rule: "cross product: {Sum,Max,Min} x {function, method} x ordered numeric element types (+complex for Sum) x shapes of rank 1-4 x EVERY non-empty subset of axes (ascending, plus one non-ascending order; for contiguous operands of rank >= 3 every order of every subset) x operand layout L5 x value sets {injective, ties and negatives, overflow}; " +
 			"{Argmax,Argmin} x every axis and AllAxes; generic Reduce(fn) with add/mul/max x every axis. Each result element is compared with the fold of the model array; the operand's storage and metadata and the caller's axes slice must be unchanged. non-trivial = >=2 elements",
 		Assume: []string{"floating-point sums use integer-valued elements so that every summation order gives the same exact result", "NaN is excluded from max/min/arg value sets; an unsupported layout may refuse (error or panic) but never fold wrongly"}})
 }
@@ -148,6 +148,31 @@ func runC08(r *core.Run) {
 									continue // only Sum has a package-level function
 								}
 								c08Reduce(r, d, shape, lay, vs, op.name, op.f, axes, api, arr)
+							}
+						}
+						// every ORDER of every axis subset (the axis list is sorted internally): contiguous operands, one value set
+						if lay == "C" && vs == "id" && rank >= 3 {
+							for _, sub := range subsets(rank) {
+								if len(sub) < 2 {
+									continue
+								}
+								for _, pm := range ref.Perms(len(sub)) {
+									axes := make([]int, len(sub))
+									asc, desc := true, true
+									for i, p := range pm {
+										axes[i] = sub[p]
+										if i > 0 && axes[i] > axes[i-1] {
+											desc = false
+										}
+										if i > 0 && axes[i] < axes[i-1] {
+											asc = false
+										}
+									}
+									if asc || (desc && len(sub) == rank) {
+										continue // run above
+									}
+									c08Reduce(r, d, shape, lay, vs, op.name, op.f, axes, "method", arr)
+								}
 							}
 						}
 					}
